@@ -561,6 +561,8 @@ pub fn parent_main(args: &Args) -> ! {
         }
     }
     recs.sort_by_key(|r| (r["ii"].as_u64().unwrap_or(0), r["h"].as_u64().unwrap_or(0)));
+    let run_digest = report::digest_records(recs.iter());
+    println!("DIGEST {id} {run_digest}");
     let mut violations: Vec<(String, Value)> = vec![];
     let mut known_hits: BTreeMap<String, (u64, String)> = BTreeMap::new();
     let mut total_steps = 0u64;
@@ -595,6 +597,7 @@ pub fn parent_main(args: &Args) -> ! {
     ev.extra.insert("total_steps".into(), json!(total_steps));
     ev.extra.insert("histories_with_boundary_length_locations".into(), json!(boundary));
     ev.extra.insert("workers".into(), json!(n));
+    ev.extra.insert("run_digest".into(), json!(run_digest));
     ev.extra.insert(
         "real_vs_stub".into(),
         json!({"real": ["tools::set_location, tools::open_pack, ManifestPack, ContainerPack::check, reader::Container", "file system (tmpfs)"],
